@@ -92,6 +92,12 @@ func (P *Prog) classify(fn *ssa.Function, fi *fnInfo) {
 			return
 		}
 	}
+	for _, n := range P.cfg.Havoc {
+		if name == n {
+			fi.intrinsic = havocCall
+			return
+		}
+	}
 	for _, n := range P.cfg.NopFuncs {
 		if name == n {
 			fi.nop = true
@@ -242,4 +248,73 @@ func init() {
 	harnessAPI["vSymbolic"] = func(fr *frame, fn *ssa.Function, args []Value) Value {
 		return TTrue
 	}
+}
+
+// havocCall models a dependency function by its signature only: if the last
+// result is an error the call either fails (zero results + error) or succeeds;
+// on success pointer-to-struct results are fresh zero structs, integers and
+// booleans are fresh symbolic values, byte slices have 2 symbolic bytes.
+func havocCall(fr *frame, fn *ssa.Function, args []Value) Value {
+	p := fr.p
+	res := fn.Signature.Results()
+	n := res.Len()
+	out := make(Tuple, n)
+	hasErr := n > 0 && types.Identical(res.At(n-1).Type(), types.Universe.Lookup("error").Type())
+	fail := false
+	if hasErr && !p.concreteMode {
+		fail = p.choose(make([]*Term, 2), "havoc outcome of "+fn.Name()) == 0
+	}
+	for i := 0; i < n; i++ {
+		t := res.At(i).Type()
+		if hasErr && i == n-1 {
+			if fail {
+				out[i] = p.makeError(fr, StrV{S: "verif: " + fn.Name() + " failed"}, nil)
+			} else {
+				out[i] = Iface{}
+			}
+			continue
+		}
+		if fail {
+			out[i] = zero(t)
+			continue
+		}
+		out[i] = p.havocValue(t)
+	}
+	switch n {
+	case 0:
+		return nil
+	case 1:
+		return out[0]
+	}
+	return out
+}
+
+func (p *Path) havocValue(t types.Type) Value {
+	if isBigInt(t) {
+		return BigVal{p.internalVar("hv", SInt)}
+	}
+	switch u := t.Underlying().(type) {
+	case *types.Pointer:
+		var cell Value
+		if isBigInt(u.Elem()) {
+			cell = BigVal{p.internalVar("hv", SInt)}
+		} else if _, ok := u.Elem().Underlying().(*types.Struct); ok {
+			cell = zero(u.Elem())
+		} else {
+			cell = p.havocValue(u.Elem())
+		}
+		return &cell
+	case *types.Basic:
+		if u.Info()&types.IsBoolean != 0 {
+			return p.internalVar("hv", SBool)
+		}
+		if w, _ := basicWidth(u); w > 0 {
+			return p.internalVar("hv", SBV(w))
+		}
+	case *types.Slice:
+		if b, ok := u.Elem().Underlying().(*types.Basic); ok && b.Kind() == types.Uint8 {
+			return SliceV{p.internalVar("hv", SBV(8)), p.internalVar("hv", SBV(8))}
+		}
+	}
+	return zero(t)
 }
